@@ -54,7 +54,9 @@ def _simpler_ops(op):
         if a["form"] == "faces":
             nd = len(a["faces"])
             # uniform N/L form with the same cell counts
-            yield with_a(form="NL", N=[len(f) - 1 for f in a["faces"]], L=[1.0] * nd, faces=None)
+            o = with_a(form="NL", N=[len(f) - 1 for f in a["faces"]], L=[1.0] * nd)
+            o["a"].pop("faces", None)
+            yield o
             for ax in range(nd):
                 if len(a["faces"][ax]) > 3:
                     f = copy.deepcopy(a["faces"])
